@@ -340,7 +340,7 @@ def run(tier):
     import kanicheck
 
     kanicheck.discharge(ck.out, "core_engine", {"c02_bucket_index": "get_bucket_index / get_bucket_index_for_key = index of the first differing bit (255 for equal ids) for all 2^512 id pairs"},
-                        timeout_s=1500, logname="c02-kani-" + tier)
+                        timeout_s=2400, logname="c02-kani-" + tier)
     ck.out.bounds = ["KademliaRoutingTable::find_closest_nodes on well-formed tables: local id = 0 (XOR translation symmetry), populated buckets at the listed concrete indices with symbolic lengths <= B "
                      "and fully symbolic remaining id bits, key with a concrete first-differing bit and symbolic remaining bits, count symbolic up to the listed maximum; one obligation set per layout: "
                      + "; ".join(str(c) for c in closest_cases(tier)),
